@@ -2,6 +2,7 @@
 from .common import *
 from .codewrite import *
 
+PER_TARGET = True      # every rule below looks at one target configuration at a time (check.py may fork one worker per target)
 DECIDED = ("R1.1/R1.2: in every normal variant of every public install root, the bytes written at the function entry decode (independent "
            "x86-64 table) to exactly one unconditional branch whose destination equals, for all address pairs admitted by the path's "
            "guards, the address the trampoline bytes were written to, and the trampoline bytes decode to a branch to the replacement "
@@ -9,7 +10,9 @@ DECIDED = ("R1.1/R1.2: in every normal variant of every public install root, the
            "page rounding; R1.4: the trampoline code fits its mapping; R1.5: function/replacement roles at the public API level; "
            "R1.6: no entry write on any diverging path; R1.7: on AArch64 and 32-bit ARM targets the same destination decision with their "
            "decode tables (entry -> trampoline -> replacement; ARM: literal = replacement, Thumb bit included), detailed by C15 / C16; R1.8: on every install path all trampoline writes precede the entry write (a call that arrives "
-           "as soon as the entry is redirected finds a complete trampoline).")
+           "as soon as the entry is redirected finds a complete trampoline); R1.9: while an entry branches to a trampoline nothing unmaps "
+           "it (who-may-release and restore-before-release, C12 R12.3/R12.4); R1.10: every install write is followed by a covering "
+           "instruction-cache flush (C17 R17.1/R17.2 on the install paths).")
 NOT_DECIDED = ("atomicity of the entry write against threads already executing the function; that the CPU executes the bytes as the "
                "decode table says")
 
@@ -190,4 +193,17 @@ def run(ck, models, tier):
         if tm.arch != "arm":
             k = _p.order_obligations(ck, "R1.8", tm)
             ck.floor("R1.8", "install-paths-with-entry-and-trampoline", k, 6, tm.target)
-    ck.floor("R1.5", "x86_64-install-roots-total", n_roots, 6)
+    # R1.9 the trampoline a live entry branches to stays mapped: the release primitive is applied to nothing but the allocator's own
+    # rejected result and, in the guard's destructor, the guard's own mapping - after the entry is restored (C12 R12.3/R12.4)
+    # R1.10 the written entry and trampoline are what the cores execute: each install write is followed by a covering flush (C17)
+    from .lifecycle import guard_roles, release_rules, restore_before_release
+    from .c17 import flush_obligations
+    for tm in models:
+        g_ = guard_roles(tm)
+        if tm.arch != "arm" and g_.adt:
+            release_rules(ck, tm, g_, "R1.9")
+            restore_before_release(ck, tm, g_, "R1.9")
+        k10 = flush_obligations(ck, tm, ("R1.10", "R1.10"), install=True, restore=False)
+        ck.floor("R1.10", "install-writes-checked-for-flush", k10, 6, tm.target)
+    if any(tm.arch == "x86_64" for tm in models):
+        ck.floor("R1.5", "x86_64-install-roots-total", n_roots, 6)
